@@ -53,6 +53,7 @@ def dispatch (prop : String) (line : String) : Verdict :=
     | some "qemitdrop" => QueueE.runEmitDrop prop f obsS
     | some "qdeep" => QueueE.runDeep prop f obsS
     | some "sockbig" => SockE.runBig prop f obsS
+    | some "sockstrace" => SockE.runStrace prop f obsS
     | some "hdl" => FmtE.runHdl prop f obsS
     | some "cfl" => FmtE.runCfl prop f obsS
     | some "sock" => SockE.runSock prop f obsS
